@@ -5,9 +5,12 @@ schedule of the racing requests, with the deliveries of Session.Broadcast / Broa
 (verifsched.Point: "who was picked" and "who is told" are separate steps unless a lock makes them one), is run on the
 instrumented real handlers (the machinery of checks/c01conc.py); the verdict reads the mover's recorded stream directly:
 after the join response of the session it moved to it must not be sent any relay (the new session is silent in these
-scenarios, so every relay it is sent then comes from the session it left).  The model side: coq/ConcView.v treats a
-broadcast as one atomic instruction; Properties/C03bcast.v is the obligation, over facts regenerated from the sources, that
-Broadcast and BroadcastTo look their recipients up and serve them inside one critical section of the participant lock."""
+scenarios, so every relay it is sent then comes from the session it left).  The model side: coq/ConcBcast.v (moves between
+sessions against atomic broadcasts, one instruction per critical section) with theorems for every schedule
+(Properties/ConcBcast.v: a delivery happens only while recipient and sender are members of the session; none after a move;
+exactly once; the snapshot-then-deliver variant refuted); Properties/C03bcast.v is the obligation, over facts regenerated from
+the sources, that Broadcast and BroadcastTo look their recipients up and serve them inside one critical section of the
+participant lock, i.e. that they are those atomic instructions."""
 import json, os, time
 from . import common as C
 from . import c01conc
@@ -37,7 +40,7 @@ def run(tier="quick", replay=None, merge=True):
             ok, what, paths = c01conc.build()
     except RuntimeError as e:
         print("INTERNAL: " + str(e)); return 2
-    cov = {"scenarios": [], "tie_broken": [], "level_of_this_part": "regenerated facts about Broadcast / BroadcastTo (GenStore.v) + exploration of the real handlers with deliveries as scheduling points"}
+    cov = {"scenarios": [], "tie_broken": [], "level_of_this_part": "theorems for every schedule over the interleaving model coq/ConcBcast.v + regenerated facts about Broadcast / BroadcastTo (GenStore.v) + exploration of the real handlers with deliveries as scheduling points"}
     viol = []
     if not ok:
         if what.startswith("INTERNAL"):
@@ -85,7 +88,7 @@ def run(tier="quick", replay=None, merge=True):
                     viol.append({"kind": "property", "replay": rp, "what": name, "schedule": ex.choices})
         cov.update({"traces_validated_against_impl": nexec, "evaluations": nexec,
                     "rule": "one case = one complete schedule of the race on the instrumented real handlers; lock acquisitions and deliveries to other connections are scheduling points"})
-    info, tie = ({"ok": True, "theorems": [], "examples": []}, None) if replay else C.store_clause_info("C03bcast", "C01conc")
+    info, tie = ({"ok": True, "theorems": [], "examples": []}, None) if replay else C.store_clause_info("C03bcast", "ConcBcast")
     if tie:
         cov["tie_broken"].append(tie)
         if not viol:
@@ -96,8 +99,6 @@ def run(tier="quick", replay=None, merge=True):
     for v in viol:
         C.violation(PID, v["replay"], no_input=(v["kind"] != "property")); rc = 1
         break
-    info["theorems"] = [t for t in info["theorems"] if t.startswith("C03_")]   # the theorems of C01conc.v are counted by the C01 check
-    info["examples"] = []
     assumptions = ["concurrent reading (beyond the property's quantifier): decided by bounded exploration (preemption bound 2, 3 in the thorough tier) with deliveries as scheduling points"]
     tb = ["tools/instrument (lock acquisitions / releases and, before every p.Responder.SendMsg, a delivery point) + verifsched + harness/l3v; the verdict of this part reads the mover's recorded "
           "message stream directly (checks/c03conc.py); tools/storefacts (Go AST -> coq/GenStore.v: Broadcast and BroadcastTo serve their recipients inside one critical section of the participant lock), fails closed"]
